@@ -39,10 +39,10 @@ abbrev Named (κ τ : Type) := List (κ × τ)
 def keys {κ τ : Type} (m : Named κ τ) : List κ := m.map (·.1)
 
 /-- the value at `k` (first binding) -/
-def get {κ τ : Type} [DecidableEq κ] (m : Named κ τ) (k : κ) : Option τ :=
+def valueAt {κ τ : Type} [DecidableEq κ] (m : Named κ τ) (k : κ) : Option τ :=
   match m with
   | [] => none
-  | (k', v) :: rest => if k' = k then some v else get rest k
+  | (k', v) :: rest => if k' = k then some v else valueAt rest k
 
 /-- the translation refers to an argument the source does not have -/
 def Unknown {κ τ : Type} (src dst : Named κ τ) (k : κ) : Prop := k ∈ keys dst ∧ k ∉ keys src
@@ -52,7 +52,7 @@ def Missing {κ τ : Type} (src dst : Named κ τ) (k : κ) : Prop := k ∈ keys
 
 /-- both refer to `k`, at types `a` (source) and `b` (translation) that are not compatible -/
 def TypeDiffKey {κ τ : Type} [DecidableEq κ] (compat : τ → τ → Prop) (src dst : Named κ τ) (k : κ) (a b : τ) : Prop :=
-  get src k = some a ∧ get dst k = some b ∧ ¬ compat a b
+  valueAt src k = some a ∧ valueAt dst k = some b ∧ ¬ compat a b
 
 /-- exactly one argument of the source is not referred to, namely `k` -/
 def OnlyMissing {κ τ : Type} (src dst : Named κ τ) (k : κ) : Prop :=
@@ -60,7 +60,7 @@ def OnlyMissing {κ τ : Type} (src dst : Named κ τ) (k : κ) : Prop :=
 
 /-- the two maps have the same keys, with compatible values -/
 def SameNamed {κ τ : Type} [DecidableEq κ] (compat : τ → τ → Prop) (src dst : Named κ τ) : Prop :=
-  (∀ k, k ∈ keys src ↔ k ∈ keys dst) ∧ ∀ k a b, get src k = some a → get dst k = some b → compat a b
+  (∀ k, k ∈ keys src ↔ k ∈ keys dst) ∧ ∀ k a b, valueAt src k = some a → valueAt dst k = some b → compat a b
 
 /-! ## when an omitted integer argument may be tolerated in a plural form -/
 
